@@ -27,12 +27,12 @@ theorem take_drop_set (A x : List Int) (k : Nat) (hk : k < x.length) (hA : A.len
   subst hv
   grind
 
-theorem src_bounds_control (x l r : List Int) (_hl : l.length = x.length) (_hr : r.length = x.length) :
+theorem src_bounds_control (x l r : List Int) (hl : l.length = x.length) (hr : r.length = x.length) :
     bounds_control x l r = some ((List.range x.length).map fun i =>
       if x.getD i 0 < l.getD i 0 then l.getD i 0
       else if r.getD i 0 < x.getD i 0 then r.getD i 0 else x.getD i 0) := by
   unfold bounds_control
-  simp only [leni, Option.some.injEq]
+  simp only [leni]
   generalize hA : ((List.range x.length).map fun i =>
       if x.getD i 0 < l.getD i 0 then l.getD i 0
       else if r.getD i 0 < x.getD i 0 then r.getD i 0 else x.getD i 0) = A
@@ -42,30 +42,39 @@ theorem src_bounds_control (x l r : List Int) (_hl : l.length = x.length) (_hr :
        else if r.getD k 0 < x.getD k 0 then r.getD k 0 else x.getD k 0) := by
     intro k hk
     simp [← hA, List.getD_eq_getElem?_getD, hk]
-  refine (forRange_inv
-    (fun k (s : bounds_control.S) => s.brk = false ∧ s.to_return = A.take k ++ x.drop k) _ _ _ _ _ ?_ ?_).2.trans ?_
+  refine forRange_elim
+    (P := fun k (s : bounds_control.S) => s.brk = false ∧ s.err = false ∧ s.dry = false ∧
+      s.to_return = A.take k ++ x.drop k)
+    (Q := fun s => (if (s.err || s.dry) = true then none else some s.to_return) = some A)
+    _ _ _ _ _ ?_ ?_ ?_
   · simp
-  · intro k s hk ⟨hb, ht⟩
+  · intro k s hk ⟨hb, he, hd, ht⟩
     have hk' : k < x.length := by simpa using hk
-    simp only [hb, Bool.false_eq_true, if_false, Int.zero_add, geti_ofNat, seti_ofNat, gt_iff_lt]
+    have hlen : (A.take k ++ x.drop k).length = x.length := by
+      simp only [List.length_append, List.length_take, List.length_drop]; omega
+    have hin : ∀ a : List Int, a.length = x.length → inb a (k : Int) = true := by
+      intro a ha; simp only [inb, Bool.and_eq_true, decide_eq_true_eq]; omega
+    simp only [hb, he, hd, ht, Bool.false_eq_true, if_false, Int.zero_add, geti_ofNat, seti_ofNat,
+      gt_iff_lt, hin x rfl, hin l hl, hin r hr, hin _ hlen, Bool.not_true, Bool.or_self]
     have hg := hAget k hk'
     by_cases h1 : x.getD k 0 < l.getD k 0
     · simp only [h1, if_true] at hg
-      simp only [h1, decide_true, if_true, ht, true_and]
+      simp only [h1, decide_true, if_true, true_and]
       exact take_drop_set A x k hk' hAlen _ hg.symm
     · simp only [h1, if_false] at hg
       simp only [h1, decide_false, Bool.false_eq_true, if_false]
       by_cases h2 : r.getD k 0 < x.getD k 0
       · simp only [h2, if_true] at hg
-        simp only [h2, decide_true, if_true, ht, true_and]
+        simp only [h2, decide_true, if_true, true_and]
         exact take_drop_set A x k hk' hAlen _ hg.symm
       · simp only [h2, if_false] at hg
-        simp only [h2, decide_false, Bool.false_eq_true, if_false, ht, true_and]
+        simp only [h2, decide_false, Bool.false_eq_true, if_false, true_and]
         rw [← take_drop_set A x k hk' hAlen _ hg.symm]
         apply List.ext_getElem?
         intro j
         have hkA : k < A.length := by omega
         grind
-  · simp [← hAlen]
+  · intro s ⟨_, he, hd, ht⟩
+    simp [he, hd, ht, ← hAlen]
 
 end TFV.SrcTie
